@@ -112,6 +112,15 @@ func SelfTest(c *core.Ctx, args []string) int {
 	}
 	bad += badC
 	fmt.Printf("selftest C: %d worlds, instrumented (asc) vs un-instrumented build (native order, real clock): %d divergences\n", nW, badC)
+	// ---- D: the simulator's own oracles (scheduler replay, RWMutex semantics, race detector true
+	// positives/negatives, deadlock detection) and the checks' reference models (semver precedence,
+	// schema evaluator)
+	if r := core.RunCmd(c.VerifDir, mGoEnv(), 10*time.Minute, "go", "test", "-count=1", "./sim/msim/simsync/", "./sim/checks/"); r.Exit != 0 {
+		bad++
+		fmt.Printf("SELFTEST: oracle self-checks failed: %s\n", tail(r.Stdout+r.Stderr, 1500))
+	} else {
+		fmt.Println("selftest D: simulator and reference-model self-checks pass")
+	}
 	// ---- B
 	exe, _ := os.Executable()
 	for _, p := range props {
